@@ -24,7 +24,7 @@ THETA_JOB = job("theta",
     nontrivial=theta_nontrivial,
 )
 
-GEN_DIR = os.path.join(core.BUILD, "gen_theta")
+GEN_DIR = os.path.join(core.BUILD, "gen_theta.%d" % os.getpid())   # one directory per run
 
 def gen_theta(oc, tier, seed):
     """spec -> impl: TLC -simulate walks the Theta design model with the code's real minimum sizes (GenTheta.tla) and writes each
@@ -32,7 +32,7 @@ def gen_theta(oc, tier, seed):
     shutil.rmtree(GEN_DIR, ignore_errors=True)
     os.makedirs(GEN_DIR, exist_ok=True)
     n = 6 if tier == Q else 30
-    rc, out, wall = core.tlc("GenTheta", "GenTheta.cfg", workers=4, timeout=900, heap="2g",
+    rc, out, wall = core.tlc("GenTheta", "GenTheta.cfg", workers=4, timeout=900, heap="2g", env={"GEN_DIR": GEN_DIR},
                              simulate="num=%d" % n, extra=("-depth", "151", "-seed", str(seed)))
     r = core.parse_tlc(out)
     nb = len([f for f in os.listdir(GEN_DIR) if f.endswith(".ndjson")])
@@ -71,3 +71,4 @@ def run_c01(oc, repo, seed, tier):
     core.trace_job(oc, THETA_JOB, repo, seed, tier)
     gen_theta(oc, tier, seed)
     core.trace_job(oc, THETA_REPLAY_JOB, repo, seed, tier)
+    shutil.rmtree(GEN_DIR, ignore_errors=True)
